@@ -731,6 +731,62 @@ def run_links_relabel(ctx, count):
         variant = _transform_link_case(rng, case)
         variant["links"] = list(reversed(variant["links"]))
         pairs.append((case, variant))
+    # branched links whose side chains carry orders of the same direction (`>` and `>>`, `<` and `<<`): which side chain
+    # is which is fixed by the resids, whatever order the matcher proposes the residues in
+    for _ in range(ctx.budget(20, 200)):
+        nres = rng.randint(3, 7)
+        up = rng.random() < 0.6
+        marks = [">", ">>"] if up else ["<", "<<"]
+        block = dict(name="A", nrexcl=1, syntax="ff", atoms=[dict(name="BB", atype="P1", cg=1)], ixns=[])
+        resids = list(range(1, nres + 1))
+        rng.shuffle(resids)
+        nodes = [[i, resids[i], "A"] for i in range(nres)]
+        edges = [[rng.randrange(i), i, None] for i in range(1, nres)]
+        link = dict(atoms=[["BB", {"resname": "A"}], [marks[0] + "BB", {"resname": "A"}], [marks[1] + "BB", {"resname": "A"}]],
+                    ixns=[["bonds", ["BB", marks[0] + "BB"], ["1", "0.41", "410"], {}],
+                          ["bonds", ["BB", marks[1] + "BB"], ["1", "0.42", "420"], {}]],
+                    edges=[], nonedges=[], patterns=[])
+        case = dict(blocks=[block], links=[link], graph=dict(nodes=nodes, edges=edges))
+        pairs.append((case, _transform_link_case(rng, case)))
+    # the directives of a monomer .itp in another order ([ bonds ] / [ constraints ] / [ angles ] …): the block and the
+    # links its dangling interactions stand for are the same definitions.  Random cases get their .itp blocks
+    # re-ordered in the twin; plus Martini-style backbones whose connection to the next residue is written twice, as a
+    # bond AND as a constraint on the same atoms, next to a .ff link that re-defines the bond
+    for case, variant in pairs:
+        for block in variant["blocks"]:
+            if block.get("syntax") == "itp":
+                sections = list(dict.fromkeys(item[0] for item in block["ixns"]))
+                rng.shuffle(sections)
+                block["section_order"] = sections
+    for _ in range(ctx.budget(20, 200)):
+        natoms = rng.choice([1, 2, 2, 3])
+        names = ["p%d" % (i + 1) for i in range(natoms)]
+        ixns = [["bonds", [i, i + 1], ["1", "0.30", "3000"], {}] for i in range(natoms - 1)]
+        last = natoms - 1
+        ixns.append(["bonds", [last, natoms], ["1", "0.35", "3500"], {}])
+        ixns.append(["constraints", [last, natoms], ["1", "0.35"], {}])
+        if natoms >= 2 and rng.random() < 0.7:
+            ixns.append(["angles", [last - 1, last, natoms], ["1", "120", "50"], {}])
+        if rng.random() < 0.4:
+            ixns.append(["pairs", [last, natoms], ["1"], {}])
+        order = list(dict.fromkeys(item[0] for item in ixns))
+        rng.shuffle(order)
+        block = dict(name="P", nrexcl=1, syntax="itp", atoms=[dict(name=n, atype="TA", cg=1) for n in names], ixns=ixns,
+                     section_order=order)
+        link = dict(atoms=[[names[last], {"resname": "P"}], ["+" + names[0], {"resname": "P"}]],
+                    ixns=[[rng.choice(["bonds", "constraints"]), [names[last], "+" + names[0]], ["1", "0.37"], {}]],
+                    edges=[], nonedges=[], patterns=[])
+        if link["ixns"][0][0] == "bonds":
+            link["ixns"][0][2].append("3700")
+        nres = rng.randint(2, 5)
+        case = dict(blocks=[block], links=[link] if rng.random() < 0.8 else [],
+                    graph=dict(nodes=[[i, i + 1, "P"] for i in range(nres)], edges=[[i, i + 1, None] for i in range(nres - 1)]))
+        variant = _transform_link_case(rng, case)
+        other = list(order)
+        while other == order and len(order) > 1:
+            rng.shuffle(other)
+        variant["blocks"][0]["section_order"] = other
+        pairs.append((case, variant))
     for case, variant in pairs:
         try:
             inp_a, out_a, _ = c02.run_real(case)
